@@ -180,6 +180,11 @@ PROPS['C10'] = dict(
             D('RouterWatcher', 'MCRouterWatcher_mut_signalfirst.cfg', expect='fail', violates='NoEarlyClose')],
     traces={'RouterLifecycleTrace': dict(module='RouterLifecycleTrace', cfg='RouterLifecycleTrace.cfg')},
     # every word of user actions admitted by RouterWatcher.tla, enumerated by TLC, becomes a program of the driver
+    # NoEarlyClose / NeverEmptyClose of RouterWatcher for EVERY set of handlers within a universe of five names, by induction
+    apalache=[dict(module='RouterWatcher', cinit='ConstInit', steps=[
+        ('Init => IndInv', ['--init=Init', '--inv=IndInv', '--length=0']),
+        ("IndInv /\\ Next => IndInv'", ['--init=IndInit', '--inv=IndInv', '--length=1']),
+        ('IndInv => NoEarlyClose /\\ NeverEmptyClose', ['--init=IndInit', '--inv=Safety', '--length=0'])])],
     generators=[dict(cmd='gen-watcher-programs', file='watcher-programs.json', env='VERIF_C10_PROGRAMS')],
     rule='runs = lifecycle programs over {AddHandler, Run, wait Running, RunHandlers (sequential and 3-6 concurrent calls with slow Subscribe), wait Started, Stop, wait Stopped, '
          'probe message, cancel Run context, Close, second Run (also while the first is held inside Subscribe), Stop/Stopped called in the window right after Started() closes (gate), '
